@@ -358,7 +358,7 @@ def gen_doc(rng, fmt, w=None, nmeas=None, nstaves=None):
                     nodes = [{"k": "m"}]
                 else:
                     ln = length
-                    if fmt == "mei" and rng.random() < w["short_layer"]:
+                    if fmt == "mei" and rng.random() < (w["short_layer"] * (3 if (nl == 2 and li == 0) else 1)):
                         ln = length - rng.choice([F(1, 2), F(1, 4), F(1, 8)])
                         if ln <= 0:
                             ln = length
@@ -486,6 +486,7 @@ def write_mei(doc):
     open_ending = None
     ev_ids = {}  # (staff, layer, index in flat sequence over the document) -> [note ids]
     counters = {}
+    tstate = {}
 
     def ev_xml(e, si, li, t):
         key = (si, li)
@@ -518,6 +519,13 @@ def write_mei(doc):
                     sub = '<accid xml:id="%s" accid="%s"/>' % (nid("ac"), MEI_ACC[p[1]])
             s = '<note xml:id="%s"%s pname="%s" oct="%d"%s' % (n, extra, p[0].lower(), p[2], acc)
             return (s + (">%s</note>" % sub if sub else "/>")), n
+        if o.get("tie_attr_too") and not e.get("g"):
+            # @tie written next to the <tie> elements (the loader reads the elements; the attribute must not disturb it)
+            prev = tstate.get(key, False)
+            cur = bool(e.get("tie"))
+            tstate[key] = cur
+            if prev or cur:
+                a += ' tie="%s"' % ("m" if prev and cur else "i" if cur else "t")
         if e["k"] == "n":
             extra = a + (' grace="%s"' % ("acc" if ids[0] % 2 else "unacc") if e.get("g") else "")
             x, n = note_xml(e["p"][0], extra)
